@@ -38,7 +38,7 @@ def install():
         fin = bool(getattr(self, "is_finished", False))
         _emit("read", reader=reader, target=getattr(self, "result_name", "?"), finished=fin, target_id=id(self))
         value = orig_prop.fget(self)
-        _emit("read_done", reader=reader, target=getattr(self, "result_name", "?"), value_id=id(value), target_id=id(self))
+        _emit("read_done", reader=reader, target=getattr(self, "result_name", "?"), value_id=id(value), target_id=id(self), value=value)
         return value
 
     def run(self):
@@ -111,7 +111,7 @@ def _wrap(cmd):
             _emit("exec_raise", name=name, exc=type(e).__name__)
             raise
         _state["stack"].pop()
-        _emit("exec_exit", name=name, value_id=id(value), obj=id(cmd))
+        _emit("exec_exit", name=name, value_id=id(value), obj=id(cmd), value=value)
         hook = _state.get("on_exit")
         if hook:
             hook(cmd, value)
